@@ -354,6 +354,7 @@ pub trait Api: Send + Sync {
     fn get_mut(&self, k: u64, write: Option<Val>, hold: u32) -> Option<(Val, Val)>;
     fn get_ttl(&self, k: u64) -> Option<u64>;
     fn len(&self) -> usize;
+    fn is_empty(&self) -> bool;
     fn wait(&self) -> Result<(), String>;
     fn clear(&self) -> Result<(), String>;
     fn close(&self) -> Result<(), String>;
@@ -452,6 +453,9 @@ macro_rules! snapshot_impl {
         }
         fn len(&self) -> usize {
             SelfTy::len(self)
+        }
+        fn is_empty(&self) -> bool {
+            SelfTy::is_empty(self)
         }
         fn get_ttl(&self, k: u64) -> Option<u64> {
             SelfTy::get_ttl(self, &k).map(dur_ns)
@@ -706,6 +710,9 @@ macro_rules! typed_api {
             fn len(&self) -> usize {
                 self.0.len()
             }
+            fn is_empty(&self) -> bool {
+                self.0.is_empty()
+            }
             fn wait(&self) -> Result<(), String> {
                 typed_api!(@w [$($aw)*] self.0.wait()).map_err(|e| e.to_string())
             }
@@ -841,7 +848,9 @@ pub fn build(cfg: &Cfg) -> Result<Box<dyn Api>, String> {
     // every type-changing setter rebuilds the builder field by field, so what an earlier
     // setter stored must survive every later one.
     macro_rules! recipe {
-        ($B:ident) => {{
+        ($B:ident, $C:ident) => {{
+            // bit 2 of the recipe: start from `Cache::builder(..)` instead of `CacheBuilder::new(..)`
+            let via_cache = cfg.recipe & 4 != 0;
             let d = cfg.use_defaults;
             let ms = Duration::from_millis(cfg.cleanup_ms);
             match cfg.recipe % 4 {
@@ -854,7 +863,8 @@ pub fn build(cfg: &Cfg) -> Result<Box<dyn Api>, String> {
                 }
                 1 => {
                     // plain constructor, scalars first, every type-changing setter afterwards
-                    let mut b = $B::<u64, Val>::new(cfg.num_counters.max(2) * 3, cfg.max_cost.saturating_mul(2).saturating_add(7));
+                    let (n0, m0) = (cfg.num_counters.max(2) * 3, cfg.max_cost.saturating_mul(2).saturating_add(7));
+                    let mut b = if via_cache { $C::<u64, Val>::builder(n0, m0) } else { $B::<u64, Val>::new(n0, m0) };
                     if !d {
                         b = b.set_cleanup_duration(ms).set_ignore_internal_cost(cfg.ignore_internal_cost).set_metrics(cfg.metrics).set_buffer_items(cfg.buffer_items).set_buffer_size(cfg.buffer_size);
                     }
@@ -862,7 +872,8 @@ pub fn build(cfg: &Cfg) -> Result<Box<dyn Api>, String> {
                 }
                 2 => {
                     // type-changing setters first (reverse order), scalars afterwards
-                    let b = $B::<u64, Val>::new(cfg.num_counters, cfg.max_cost).set_hasher(SeedState(cfg.hasher_seed)).set_callback(cb).set_update_validator(HValidator(cfg.validator.clone())).set_coster(HCoster(cfg.coster)).set_key_builder(kb);
+                    let b = if via_cache { $C::<u64, Val>::builder(cfg.num_counters, cfg.max_cost) } else { $B::<u64, Val>::new(cfg.num_counters, cfg.max_cost) };
+                    let b = b.set_hasher(SeedState(cfg.hasher_seed)).set_callback(cb).set_update_validator(HValidator(cfg.validator.clone())).set_coster(HCoster(cfg.coster)).set_key_builder(kb);
                     if !d {
                         b.set_buffer_size(cfg.buffer_size).set_cleanup_duration(ms).set_metrics(cfg.metrics).set_buffer_items(cfg.buffer_items).set_ignore_internal_cost(cfg.ignore_internal_cost)
                     } else {
@@ -871,7 +882,7 @@ pub fn build(cfg: &Cfg) -> Result<Box<dyn Api>, String> {
                 }
                 _ => {
                     // interleaved; counters and capacity last
-                    let b = $B::<u64, Val>::new(64, 1);
+                    let b = if via_cache { $C::<u64, Val>::builder(64, 1) } else { $B::<u64, Val>::new(64, 1) };
                     if !d {
                         b.set_metrics(cfg.metrics).set_hasher(SeedState(cfg.hasher_seed)).set_ignore_internal_cost(cfg.ignore_internal_cost).set_callback(cb).set_cleanup_duration(ms).set_key_builder(kb).set_buffer_size(cfg.buffer_size).set_coster(HCoster(cfg.coster)).set_buffer_items(cfg.buffer_items).set_update_validator(HValidator(cfg.validator.clone())).set_max_cost(cfg.max_cost).set_num_counters(cfg.num_counters)
                     } else {
@@ -882,8 +893,8 @@ pub fn build(cfg: &Cfg) -> Result<Box<dyn Api>, String> {
         }};
     }
     match cfg.flavor {
-        Flavor::Sync => recipe!(CacheBuilder).finalize().map(|c| Box::new(c) as Box<dyn Api>).map_err(|e| format!("{:?}", e)),
-        Flavor::Async | Flavor::AsyncLocal => recipe!(AsyncCacheBuilder).finalize(async_spawner).map(|c| Box::new(c) as Box<dyn Api>).map_err(|e| format!("{:?}", e)),
+        Flavor::Sync => recipe!(CacheBuilder, Cache).finalize().map(|c| Box::new(c) as Box<dyn Api>).map_err(|e| format!("{:?}", e)),
+        Flavor::Async | Flavor::AsyncLocal => recipe!(AsyncCacheBuilder, AsyncCache).finalize(async_spawner).map(|c| Box::new(c) as Box<dyn Api>).map_err(|e| format!("{:?}", e)),
     }
 }
 
@@ -936,7 +947,18 @@ fn snap_of_q(api: &dyn Api, universe: &[u64], kb: &HKb, quiescent: bool) -> Snap
             item_size: s.item_size,
             is_closed: s.is_closed,
             policy_closed: s.policy_closed,
-            len: if quiescent { api.len() } else { s_len },
+            // at a quiescent point len() and is_empty() must tell the same story; a disagreement
+            // is reported as an absurd length, which every rule about len() then flags
+            len: if quiescent {
+                let n = api.len();
+                if api.is_empty() != (n == 0) {
+                    usize::MAX
+                } else {
+                    n
+                }
+            } else {
+                s_len
+            },
             max_cost_api: if quiescent { api.max_cost() } else { s_max },
             metrics: api.metrics(),
             tasks: rt::task_states(),
